@@ -152,6 +152,28 @@ APowInt(s, n, prec, rnd) ==
                    r == APowLoop(ZOne, 0, 1, s.m, s.e, s.bc, n, wpw, down)
                IN ANormalize(rs, r[1], r[2], r[3], prec, rnd)         \* the tracked bit count (one short only when pm is a power of two)
 
+\* floor square root on ZSig, bit by bit from the top
+RECURSIVE ISqrtBits(_, _, _)
+ISqrtBits(n, r, k) == IF k < 0 THEN r
+                      ELSE LET c == ZAdd(r, ZShl(ZOne, k)) IN ISqrtBits(n, IF ZCmp(ZMul(c, c), n) <= 0 THEN c ELSE r, k - 1)
+ZISqrt(n) == IF ZIsZero(n) THEN ZZero ELSE ISqrtBits(n, ZZero, (ZBitLen(n) \div 2) + 1)
+\* mpf_sqrt for finite s >= 0: even exponent, shift to 2*prec+4 bits, floor root for the downward modes, otherwise the
+\* root with a sticky bit appended when the remainder is nonzero ("perturb up")
+ASqrt(s, prec, rnd) ==
+  IF s = FZero THEN FZero
+  ELSE LET odd == s.e % 2 = 1
+           man0 == IF odd THEN ZShl(s.m, 1) ELSE s.m
+           exp0 == IF odd THEN s.e - 1 ELSE s.e
+           bc0 == IF odd THEN s.bc + 1 ELSE s.bc
+       IN IF ~odd /\ ZCmp(s.m, ZOne) = 0 THEN ANormalize(0, s.m, s.e \div 2, s.bc, prec, rnd)
+          ELSE LET sh0 == IMax(4, 2 * prec - bc0 + 4)
+                   sh == sh0 + (sh0 % 2)
+                   big == ZShl(man0, sh)
+                   root == ZISqrt(big)
+                   exact == ZCmp(ZMul(root, root), big) = 0
+               IN IF rnd \in {"f", "d"} \/ exact THEN AFromManExp(root, (exp0 - sh) \div 2, prec, rnd)
+                  ELSE AFromManExp(ZAdd(ZShl(root, 1), ZOne), (exp0 - sh - 2) \div 2, prec, rnd)
+
 \* mpf_cmp for finite operands: -1, 0, 1
 ACmp(s, t) ==
   IF s = FZero THEN -FSignum(t)
